@@ -417,6 +417,16 @@ def _mutant_job(job):
             p = subprocess.run(['git', 'apply', '--unsafe-paths', '--directory=' + r, payload], cwd='/', capture_output=True, text=True)
             if p.returncode:
                 return name, 'skipped', 'patch does not apply to the current tree'
+        elif kind == 'commit':
+            # the repair itself, taken back: the reverse of the fix commit's diff
+            q = subprocess.run(['git', '-C', repo_root(), 'diff', payload + '^', payload, '--', 'fastparquet'], capture_output=True, text=True)
+            if q.returncode or not q.stdout.strip():
+                return name, 'skipped', 'commit not available'
+            pf = os.path.join(d, 'fix.diff')
+            open(pf, 'w').write(q.stdout)
+            p = subprocess.run(['git', 'apply', '-R', '--unsafe-paths', '--directory=' + r, pf], cwd='/', capture_output=True, text=True)
+            if p.returncode:
+                return name, 'skipped', 'later repairs changed the same lines: the commit cannot be taken back on its own'
         else:
             f, old, new = payload
             path = os.path.join(r, f)
@@ -463,6 +473,13 @@ def run_for(ctx, pid):
     for name, pids, f, old, new in REVERTS:
         if pid in pids:
             jobs.append(('text', name, pid, (f, old, new)))
+    # every repair recorded for this property, taken back as a whole (reverse of the fix commit)
+    import re as _re
+    kf = json.load(open(os.path.join(HERE, 'known_findings.json')))
+    for e in kf.get('fixed', []):
+        m_ = _re.match(r'fixed: property=(C\d\d) (\w+) ', e)
+        if m_ and m_.group(1) == pid:
+            jobs.append(('commit', 'revert-commit-' + m_.group(2), pid, m_.group(2)))
     tjobs = [(pid, m, q) for m, q in TWIN_FUNCS.get(pid, [])]
     with ThreadPoolExecutor(12) as ex:
         mres = list(ex.map(_mutant_job, jobs))
